@@ -170,6 +170,22 @@ def drop_trunc(l):
     return out
 
 
+def subst_eq(l, guards):
+    """the same value with every term the guards pin to a constant (term == c) replaced by that constant"""
+    eqs = {}
+    for g in guards or ():
+        if isinstance(g, tuple) and g[0] == 'cmp' and g[2] == '==' and len(g[1]) == 1:
+            t, k = g[1][0]
+            if k != 0 and g[3] % k == 0:
+                eqs[t] = g[3] // k
+    if not eqs or not any(t in eqs for t in l.t):
+        return l
+    out = Lin(l.c)
+    for t, k in l.t.items():
+        out = out + (Lin(eqs[t] * k) if t in eqs else Lin.term(t, k))
+    return out
+
+
 def minmax(name, a, b):
     if a.is_const() and b.is_const():
         return Lin(max(a.c, b.c) if name == 'max' else min(a.c, b.c))
@@ -288,6 +304,53 @@ def satisfiable(guards, bounds=None):
                     return False
                 if o == '==' and any((not nz) and (cc & m) != 0 for m, nz in lst):
                     return False
+    # masked comparisons ((x & M) OP c) together with bit tests on the same x: exact by enumeration of the bits involved
+    cons = {}
+    for lk, lst in bits.items():
+        for m, nz in lst:
+            cons.setdefault(lk, []).append(('bits', m, nz))
+    masked = False
+    for nk, lst in cmps.items():
+        if len(nk) == 1 and nk[0][1] == 1 and nk[0][0][0] == 'op' and nk[0][0][1] == '&':
+            a, b = nk[0][0][2], nk[0][0][3]
+            if isinstance(a, Lin) and isinstance(b, Lin) and (a.is_const() != b.is_const()):
+                base, m = (b, a.c) if a.is_const() else (a, b.c)
+                for o, c in lst:
+                    cons.setdefault(base.key(), []).append(('mcmp', m, o, c))
+                    masked = True
+    if masked:
+        for lk, lst in cons.items():
+            if not any(x[0] == 'mcmp' for x in lst):
+                continue
+            U = 0
+            for x in lst:
+                U |= x[1]
+            ubits = [i for i in range(U.bit_length()) if (U >> i) & 1]
+            if len(ubits) > 12:
+                continue
+            found = False
+            for n_ in range(1 << len(ubits)):
+                v = 0
+                for j, bpos in enumerate(ubits):
+                    if (n_ >> j) & 1:
+                        v |= 1 << bpos
+                ok = True
+                for x in lst:
+                    if x[0] == 'bits':
+                        if ((v & x[1]) != 0) != x[2]:
+                            ok = False
+                            break
+                    else:
+                        w = v & x[1]
+                        o, c = x[2], x[3]
+                        if not {'<': w < c, '<=': w <= c, '==': w == c, '!=': w != c, '>': w > c, '>=': w >= c}[o]:
+                            ok = False
+                            break
+                if ok:
+                    found = True
+                    break
+            if not found:
+                return False
     return True
 
 
